@@ -472,6 +472,12 @@ def check_C14(hs: History, conns, ex: Expect, ob: Obs):
         if h["type"] in nolist and got:
             out.append(("notice:cascade", f"a notice was produced for an undeliverable message of type {h['type']}"))
             continue
+        # "a logger module is waited for instead of being skipped": a logger recipient that the round found not writable
+        # still gets the message (and is therefore not named by a notice)
+        for x in d["recips"]:
+            if conns[x].logger and not any(f["xid"] == d["xid"] for f in ob.frames.get(x, [])) and d["xid"] != 0:
+                out.append(("logger:skipped", f"publish type={h['type']} dst_mod={h['dst_mod']}: logger conn {x} (module {conns[x].mod_id}) "
+                                              f"did not receive it" + (" and is named by a FAILED_MESSAGE" if conns[x].mod_id in got else "")))
         missing = [m for m in want if want.count(m) > got.count(m)]
         if missing:
             out.append(("notice:missing", f"publish type={h['type']} dst_mod={h['dst_mod']}: undeliverable to modules {sorted(want)} but notices name {sorted(got)}"))
